@@ -42,7 +42,8 @@ DUMMY_ATTRS = ["intent(in)", "intent(out)", "intent(in out)", "intent(inout)", "
 CONFLICT = [{"allocatable", "pointer"}, {"public", "private"}, {"dimension(3)", "dimension(:, :)"}, {"target", "pointer"},
             {"intent(in)", "intent(out)"}, {"intent(in)", "intent(in out)"}, {"intent(out)", "intent(in out)"}, {"intent(in)", "intent(inout)"},
             {"intent(out)", "intent(inout)"}, {"intent(in out)", "intent(inout)"}, {"allocatable", "dimension(3)"}, {"pointer", "dimension(3)"}]
-DOCS = ["none", "pre", "pre2", "trail", "post", "post2", "pre_blank", "next_pre"]
+DOCS = ["none", "pre", "pre2", "trail", "post", "post2", "pre_blank", "next_pre", "post_next_pre", "post_bang_next_pre", "post_blank_next_pre",
+        "trail_next_pre", "trail_bang_next_pre"]
 
 
 def legal(attrs):
@@ -125,13 +126,20 @@ def render_decl(case):
         doc_lines.append("trailing doc of x")
     decl_line = len(L)
     L.append(stmt)
-    if doc in ("post", "post2"):
+    if doc in ("trail_next_pre", "trail_bang_next_pre"):
+        L[decl_line] += " !< trailing doc of x"
+        doc_lines.append("trailing doc of x")
+    if doc in ("post", "post2", "post_next_pre", "post_bang_next_pre", "post_blank_next_pre"):
         L.append(ind + "!! after doc of x")
         doc_lines.append("after doc of x")
         if doc == "post2":
             L.append(ind + "!! more after doc of x")
             doc_lines.append("more after doc of x")
-    if doc == "next_pre":
+    if doc in ("post_bang_next_pre", "trail_bang_next_pre"):
+        L.append(ind + "!")
+    if doc == "post_blank_next_pre":
+        L.append("")
+    if doc.endswith("next_pre"):
         L.append(ind + "!> this documents the NEXT entity only")
     L.append(ind + "integer :: following_entity")
     if kind == "dummy":
@@ -254,6 +262,14 @@ def decl_case(case, acc: Acc):
     # a comment on a statement that declares several entities is not attributable to one of them
     if got_doc != want_doc and not _several_entities(ent):
         problems.append(("documentation", want_doc, got_doc))
+    if doc.endswith("next_pre"):
+        # ... and the block in front of the next entity belongs to that entity
+        fl = [i for i, t in enumerate(text.split("\n")) if "following_entity" in t][0]
+        r2 = s.result("textDocument/hover", Server.tdpp(path, fl, text.split("\n")[fl].index("following_entity") + 3))
+        h2 = parse_hover(r2["contents"]["value"]) if isinstance(r2, dict) and isinstance(r2.get("contents"), dict) else None
+        got2 = re.sub(r"\s+", " ", h2["docs"]).strip() if h2 else None
+        if got2 != "this documents the NEXT entity only":
+            problems.append(("documentation_of_next_entity", "this documents the NEXT entity only", got2))
     for what, w, g in problems:
         acc.violation(Violation("declarations", {**tags0, "obs": what}, cs, w, g, what=f"{case}: {what}: expected {w!r}, got {g!r}"))
     if len(acc.samples) < 2:
